@@ -270,7 +270,8 @@ def run(ctx: Ctx) -> RuleResult:
     res.ob('%s %s' % (fm.loc(), fm.qual), 'fullmatch uses re fullmatch', ok)
     if not ok:
         res.finding(fm, fm.node, 'Scanner.fullmatch is not a full match', construct='fullmatch')
-    ok = has_pat(cuf.body_nodes(), '$cb[$re.name] = UnlessCallback(Scanner($u, $$a, $$b, use_bytes=$$c))') and \
+    ok = (has_pat(cuf.body_nodes(), '$cb[$re.name] = UnlessCallback(Scanner($u, $$a, $$b, use_bytes=$$c))')
+          or has_pat(cuf.body_nodes(), '$cb[$re.name] = UnlessCallback(Scanner($u, $$a, $$b, $$c))')) and \
         has_pat(cuf.body_nodes(), '$u.append($st)')
     res.ob('%s %s' % (cuf.loc(), cuf.qual), 'the callback is registered on the regexp terminal with a scanner over its keywords', ok)
     if not ok:
